@@ -593,8 +593,8 @@ namespace cds { namespace intrusive {
                             nodeSize = arrayNodeSize;
                         }
                         else if (slot.bits() == base_class::flag_array_converting ) {
-                            // the slot is converting to array node right now - skip the node
-                            ++idx;
+                            // the slot is converting to array node right now - wait until the conversion is done
+                            back_off()();
                         }
                         else {
                             if (slot.ptr()) {
@@ -651,8 +651,8 @@ namespace cds { namespace intrusive {
                             idx = nodeSize - 1;
                         }
                         else if (slot.bits() == base_class::flag_array_converting ) {
-                            // the slot is converting to array node right now - skip the node
-                            --idx;
+                            // the slot is converting to array node right now - wait until the conversion is done
+                            back_off()();
                         }
                         else {
                             if (slot.ptr()) {
